@@ -407,6 +407,60 @@ def arbitrary(rng, n):
     return cases
 
 
+def retry_points(rng, full):
+    """retry_rule_any_state / retry_chain / unrecognised_means_untouched: an outgoing attempt failing at every
+    kind of point before / at / after the recognition point of the peer's key (96 bytes) or handshake part 1
+    (48 bytes), crossed with what happens to the retry (fails early, fails late, succeeds), per policy."""
+    pre = "13426974546f7272656e742070726f746f636f6c" + "00" * 8
+    def plain_fail(k):
+        body = (pre + "aa" * 20)[:2 * k]
+        return script([["c:" + body, "X"]], "W")
+    def mse_fail(k):
+        if k < 96:
+            return script([["c:" + "5a" * k, "X"]], "W")
+        if k == 96:
+            return script([["K", "X"]], "W")
+        return script([["K", "O%d" % (k - 96)], ["X"]], "WW")
+    good_p = plain_script()
+    ph, sg = out_mse(3, 5, 3)
+    good_m = script(ph, sg)
+    plain_pts = [1, 19, 20, 27, 28, 47, 48]
+    mse_pts = [1, 50, 95, 96, 97, 300]
+    out = []
+    for hs, st in POLICIES:
+        combos = []
+        for k in plain_pts:
+            for sm in (mse_fail(rng.choice(mse_pts)), good_m, "X"):
+                combos.append((plain_fail(k), sm))
+        for k in mse_pts:
+            for sp in (plain_fail(rng.choice(plain_pts)), good_p, "X"):
+                combos.append((sp, mse_fail(k)))
+        if not full:
+            combos = rng.sample(combos, 4)
+        for sp, sm in combos:
+            out.append(case_out(hs, st, 0, sp, sm))
+    return out
+
+
+def pad_sweep(rng, full):
+    """sync_scan_*: PadA / PadB of EVERY length, not only the five of the matrix; outgoing with the pad and
+    ENCRYPT(VC) coalesced with the key (fixed-select reply V), cut after the pad, cut inside the VC"""
+    out = []
+    lens = [0, 1, 7, 8, 255, 511, 512, 513, 519, 520, 523, 524, 525, 532, 600]
+    lens += [rng.randrange(2, 511) for _ in range(40 if full else 6)]
+    for n in lens:
+        body = ["K", "O%d" % n, "V2.0", "mH100", "m:" + TR]
+        cuts = ["W", str(96 + n), str(96 + n + 4), "96.%d" % (96 + n + 8)] if n else ["W", "96", "100"]
+        for seg in (cuts if full or n >= 511 else rng.sample(cuts, 2)):
+            out.append(case_out(2, 1, 1, "X", phase(body, seg)))
+    for n in [rng.randrange(0, 513) for _ in range(60 if full else 8)] + [512, 513]:
+        m = rng.randrange(0, 513)
+        ph, sg = in_mse(rng.choice([1, 2, 3]), n, m, rng.randrange(2))
+        out.append(case_in(1, 1, 1 if n <= 512 else 0, script(ph, sg)))
+    return out
+
+
+
 def gen_tagged(seed, tier):
     rng = random.Random(seed)
     full = tier == "thorough"
@@ -414,10 +468,12 @@ def gen_tagged(seed, tier):
     corpus = []
     for f in sorted(glob.glob(os.path.join(here, "corpus", "C06", "*.case"))):
         corpus += [l.rstrip("\n") for l in open(f) if l.strip() and not l.startswith("#")]
+    rng2 = random.Random(seed * 1000003 + 6)      # own stream: the older generators keep their draws
     streams = [("corpus", corpus), ("matrix", matrix(rng, full)), ("segmentation", seg_sweep(rng, full)),
                ("bytewise", bytewise(rng, 150 if full else 24)), ("malformed", malformed(rng, 1200 if full else 150)),
                ("identity", identity(rng, full)), ("dual", dual(rng, full)),
-               ("arbitrary", arbitrary(rng, 1500 if full else 150))]
+               ("arbitrary", arbitrary(rng, 1500 if full else 150)),
+               ("retrypoints", retry_points(rng2, full)), ("padsweep", pad_sweep(rng2, full))]
     cases, tags, stats = [], [], {}
     for name, cs in streams:
         stats[name] = len(cs)
